@@ -615,7 +615,7 @@ func checkCompileAfterCompile(first, then string) []engine.Violation {
 // Oracle (c): a run does not change the data it reads.  The typed tree hands out the very same
 // datum objects (leaf-list slices included) on every GetValue, as a caching data tree would: after
 // machine A has run on it, machine B must observe what it observes on a freshly built tree.
-var sharedValueExprs = []string{"lls < 4", "lls = 'a'", "lln > 1", "lln <= lls", "count(lls)", "string(lls)", "lls != lln", "sum(lln)", "lls", "string-length(lls)", "ll1 >= 'a'", "- lln < 0", "lls + 1", "not(lls < lln)"}
+var sharedValueExprs = []string{"lls < 4", "lls = 'a'", "lln > 1", "lln <= lls", "count(lls)", "string(lls)", "lls != lln", "sum(lln)", "lls", "string-length(lls)", "ll1 >= 'a'", "- lln < 0", "lls + 1", "not(lls < lln)", "lls | sx", "(lln | n5) = 5", "(ll1 | lls) = 'b'", "(ll0 | s1) = 1"}
 
 func runShared(m *xpath.Machine, t *mock.Tree) string {
 	t.Reset()
@@ -634,6 +634,10 @@ func checkInputsUnchanged(a, b string) []engine.Violation {
 	shared, _ := xpx.ScalarTree()
 	runShared(ma, shared)
 	after := runShared(mb, shared)
+	if w := shared.SpareWritten(); len(w) > 0 {
+		return []engine.Violation{{Key: "run-writes-into-the-data-tree's-memory", Witness: fmt.Sprintf("run %s, then %s on the same data tree", a, b),
+			Detail: strings.Join(w, "; "), Harness: "matrix", Replay: engine.JSON(matrixRec{Machine: "shared:" + a, Then: b})}}
+	}
 	if after != alone {
 		return []engine.Violation{{Key: "run-changes-the-data-it-reads", Witness: fmt.Sprintf("run %s, then %s on the same data tree", a, b),
 			Detail: fmt.Sprintf("on a fresh tree %q; after the other run %q", alone, after), Harness: "matrix", Replay: engine.JSON(matrixRec{Machine: "shared:" + a, Then: b})}}
